@@ -7,6 +7,9 @@
 (* arguments, and the invariants / action properties of C19 are evaluated in every state.                *)
 EXTENDS Orchestrator, TraceLib
 
+CONSTANT Strict   \* TRUE: every event must be the step the Orchestrator module takes (conformance of the script's control flow);
+                  \* FALSE: only the filesystem, the pipeline and the ghosts are replayed - whatever the script decided - and the
+                  \*        clauses of C19 are evaluated on what actually happened (the verdict on the property)
 VARIABLES tid, l
 T == Traces[tid]
 Ev == T.events[l]
@@ -68,8 +71,41 @@ TEnd == /\ Is("end")
         /\ Adv /\ UNCHANGED vars
 
 TDone == l = Len(T.events) + 1 /\ Accept(tid) /\ UNCHANGED <<vars, tid, l>>
-TNext == TSilent \/ TStart \/ TScan \/ TDecide \/ TExit \/ TRm \/ TRmDir \/ TMkIter \/ TMkPlate \/ TLaunch \/ TDied
+(* ---- liberal replay: the script's decisions are taken as observed ---- *)
+LKeep == UNCHANGED <<lastMeta, curScreen, excl, torm, named, crashes, runs>>
+LNop == l <= Len(T.events) /\ Ev.ev \in {"scan", "decide", "exit"} /\ UNCHANGED vars /\ Adv
+LStart == Is("start") /\ pc' = "run" /\ UNCHANGED <<idirs, pdirs, files, ni, nj, cmd, pub, Ghosts>> /\ LKeep /\ Adv
+LRm == /\ Is("rm") /\ files' = [files EXCEPT ![<<Ev.s[1], Ev.s[2]>>][Ev.k] = None]
+       /\ UNCHANGED <<idirs, pdirs, pc, ni, nj, cmd, pub, Ghosts>> /\ LKeep /\ Adv
+LRmDir == /\ Is("rmdir") /\ pdirs' = pdirs \ {<<Ev.s[1], Ev.s[2]>>}
+          /\ UNCHANGED <<idirs, files, pc, ni, nj, cmd, pub, Ghosts>> /\ LKeep /\ Adv
+LMkIter == Is("mkiter") /\ idirs' = idirs \cup {Ev.i} /\ UNCHANGED <<pdirs, files, pc, ni, nj, cmd, pub, Ghosts>> /\ LKeep /\ Adv
+LMkPlate == Is("mkplate") /\ pdirs' = pdirs \cup {<<Ev.s[1], Ev.s[2]>>} /\ UNCHANGED <<idirs, files, pc, ni, nj, cmd, pub, Ghosts>> /\ LKeep /\ Adv
+LLaunch == /\ Is("launch")
+           /\ ni' = Ev.s[1] /\ nj' = Ev.s[2] /\ cmd' = CmdOf(Ev.c) /\ pub' = {} /\ pc' = "pipeline"
+           /\ launched' = Append(launched, [s |-> <<Ev.s[1], Ev.s[2]>>, c |-> CmdOf(Ev.c)])
+           /\ Check(tid, l, "C19:completed-step-never-executed-twice", <<Ev.s[1], Ev.s[2]>> \notin completed)
+           /\ Check(tid, l, "C19:no-step-skipped", \A s \in Steps : StepNo(s) < StepNo(<<Ev.s[1], Ev.s[2]>>) => s \in completed)
+           /\ UNCHANGED <<idirs, pdirs, files, completed, died>> /\ LKeep /\ Adv
+LPublish == Is("publish") /\ Check(tid, l, "publish-allowed-by-dag", pc = "pipeline" /\ Ev.k \in Outputs(cmd.wf) \ pub) /\ Publish(Ev.k) /\ Adv
+LPipelineDone == Is("pipeline_done") /\ pc' = "run" /\ UNCHANGED <<idirs, pdirs, files, ni, nj, cmd, pub, Ghosts>> /\ LKeep /\ Adv
+LCrash == Is("crash") /\ pc' = "idle" /\ UNCHANGED <<idirs, pdirs, files, ni, nj, cmd, pub, Ghosts>> /\ LKeep /\ Adv
+LOperator == /\ Is("operator_remove")
+             /\ pdirs' = pdirs \ {<<Ev.dir[1], Ev.dir[2]>>} /\ files' = [files EXCEPT ![<<Ev.dir[1], Ev.dir[2]>>] = NoFiles]
+             /\ UNCHANGED <<idirs, pc, ni, nj, cmd, pub, Ghosts>> /\ LKeep /\ Adv
+LDied == Is("died") /\ died' = TRUE /\ UNCHANGED <<idirs, pdirs, files, pc, ni, nj, cmd, pub, completed, launched>> /\ LKeep /\ Adv
+LEnd == /\ Is("end")
+        /\ Check(tid, l, "C19:run-finished-with-every-step-of-the-uninterrupted-run",
+                 IF Mode = "retrospective" THEN \E s \in completed : URef(s) <= 0 ELSE \A i \in 0..MaxIter - 1 : <<i, B - 1>> \in completed)
+        /\ Check(tid, l, "C19:final-tree-is-the-uninterrupted-tree", \A s \in completed : \A k \in Outputs(Ref(s).wf) : files[s][k].good)
+        /\ Check(tid, l, "C19:final-tree-equals-reference-tree", Ev.tree_equal)
+        /\ Adv /\ UNCHANGED vars
+LNext == LNop \/ LStart \/ LRm \/ LRmDir \/ LMkIter \/ LMkPlate \/ LLaunch \/ LPublish \/ LPipelineDone \/ LCrash \/ LOperator
+         \/ LDied \/ LEnd \/ TDone
+
+SNext == TSilent \/ TStart \/ TScan \/ TDecide \/ TExit \/ TRm \/ TRmDir \/ TMkIter \/ TMkPlate \/ TLaunch \/ TDied
          \/ TPublish \/ TPipelineDone \/ TCrash \/ TOperator \/ TEnd \/ TDone
+TNext == IF Strict THEN SNext ELSE LNext
 
 \* C19 on every state of every real execution (used as a CONSTRAINT, so that a violated clause is reported by name and the
 \* trace is cut there instead of TLC stopping at an invariant error)
